@@ -296,6 +296,15 @@ def bounded_fill(s, fill):
             for k in cols:
                 name = NAMES[k].upper() if rnd.rand() < 0.3 else NAMES[k]
                 df[name] = tens[:, k]
+            # row labels are not part of the data: tables that were sorted, filtered, concatenated or re-labelled before filling (any pandas index)
+            how = trial % 4
+            if how == 1 and nvol > 1:
+                df.index = list(rnd.permutation(nvol))
+            elif how == 2:
+                df.index = [10 * (i + 1) for i in range(nvol)]
+            elif how == 3:
+                df.index = ["v%d" % i for i in range(nvol)][::-1]
+            index0 = list(df.index)
             evals += 1
             distinct += 1
             try:
@@ -322,6 +331,24 @@ def bounded_fill(s, fill):
                     break
             if msg is None and not numpy.array_equal(out["V"].to_numpy(dtype=float), df["V"].to_numpy(dtype=float)):
                 msg = "V column changed"
+            if msg is None and list(out.index) != index0:
+                msg = "row labels changed from %s to %s" % (index0, list(out.index))
+            if msg is None and how == 0 and trial % 8 == 0:
+                # a second table with the SAME components listed in another column order, filled in the same process (no state may survive the first call)
+                cols2 = list(df.columns)
+                rnd.shuffle(cols2)
+                tens2 = (coef * rnd.uniform(0.5, 1.5, size=coef.shape)) @ basis
+                df2 = pandas.DataFrame({c: (df[c].to_numpy() if c == "V" else tens2[:, NAMES.index(str(c).lower())]) for c in cols2})
+                evals += 1
+                try:
+                    out2 = fill.fill_cij(df2.copy(), system)
+                    for k, name in enumerate(NAMES):
+                        col = next((c for c in out2.columns if str(c).lower() == name), None)
+                        if col is not None and not numpy.allclose(out2[col].to_numpy(dtype=float), tens2[:, k], rtol=0, atol=1e-8 * numpy.abs(tens2).max()):
+                            msg = "second table of the process (same components, columns %s): component %s returned %s, invariant tensor has %s" % (cols2, name, out2[col].tolist(), tens2[:, k].tolist())
+                            break
+                except Exception as e:
+                    msg = "second table of the process (same components, columns %s) raises %r" % (cols2, e)
             if msg:
                 fails.append({"witness_id": "fill:%s:%d" % (system, trial), "input": {"system": system, "table": df.to_dict("list")},
                               "observed": msg, "expected": "the unique invariant tensor with the supplied values"})
@@ -329,7 +356,8 @@ def bounded_fill(s, fill):
         if fails:
             break
     s.bounded_standin("C08.fill_returns_invariant(real numerics)", "%d random consistent tables per system (1-5 volume rows, random sufficient subset + up to 3 redundant "
-                      "columns, random order and letter case), seed %d" % (n_per, s.seed), evals, distinct, fails, [F])
+                      "columns, random order and letter case; default / permuted / spaced / string row labels; every eighth table followed in the same process by one with the "
+                      "same components in another column order), seed %d" % (n_per, s.seed), evals, distinct, fails, [F])
 
 
 MANIFEST = {
